@@ -17,7 +17,7 @@ func init() {
 	Descriptions["C15"] = "Static lock-set / confinement analysis over a frozen classification of every field of conn, Server, Mux, ResponseWriter and Directory: " +
 		"C15-immutable (written only by the constructor or before the object is published to another goroutine), C15-guarded (every access outside the constructor holds the field's mutex on the same object in the must-held lock set; reads may hold it in read mode; unlocked reads are accepted only in the single function that performs all writes, i.e. on the writing goroutine), " +
 		"C15-confined (fields touched only by the connection goroutine, by C13-inline including Request.StartTLS), C15-precondition (Mux tables and Server.router are only written by the registration methods; 'routes registered before Run'), " +
-		"C15-waitgroup (Add/Done/Wait pairing and ordering of requestsWg and connWg), C15-copylocks (no by-value copy of a struct holding a mutex), C15-capture (no go closure captures a variable that is assigned again after the spawn), C15-classified (no unclassified field). " +
+		"C15-waitgroup (Add/Done/Wait pairing and ordering of requestsWg and connWg), C15-copylocks (no by-value copy of a struct holding a mutex), C15-foreign-config (gldap writes fields only of tls.Configs it built or cloned itself), C15-capture (no go closure captures a variable that is assigned again after the spawn), C15-classified (no unclassified field). " +
 		"Does not decide races in user handlers or anything that contradicts the stated confinement assumption."
 }
 
@@ -665,6 +665,38 @@ func checkC15(c *Ctx) {
 			}
 		}
 		R.Floor("C15-guarded-object", 2)
+	}
+
+	// ---- C15-foreign-config: a *tls.Config handed in by the application (WithTLSConfig, Request.StartTLS) is shared -
+	// between connections being upgraded, with crypto/tls handshakes in flight and with the caller. gldap writes a field
+	// of a tls.Config only when the config is its own: a literal it just built or the result of Clone()
+	{
+		nCfg := 0
+		for _, f := range c.shippedFuncs(G) {
+			an.Instrs(f, func(in ssa.Instruction) {
+				st, ok := in.(*ssa.Store)
+				if !ok {
+					return
+				}
+				fa, ok := st.Addr.(*ssa.FieldAddr)
+				if !ok || !an.TypeIs(fa.X.Type(), "crypto/tls", "Config") {
+					return
+				}
+				nCfg++
+				own := false
+				switch x := an.Strip(fa.X).(type) {
+				case *ssa.Alloc:
+					own = true
+				case *ssa.Call:
+					if g := x.Common().StaticCallee(); g != nil && an.FuncPkgPath(g) == "crypto/tls" && g.Name() == "Clone" {
+						own = true
+					}
+				}
+				R.Check(own, "C15-foreign-config", fname(f)+": write tls.Config."+an.FieldAddrName(fa), c.pos(st), "the config is a literal or Clone() made by this function", "tls.Config."+an.FieldAddrName(fa)+" is written through "+an.Path(fa.X)+", a config gldap did not create: the application's config is shared by every connection being upgraded and by handshakes in flight, so the write races with their reads")
+			})
+		}
+		R.Count("C15-foreign-config/stores", nCfg)
+		R.Trivial("C15-foreign-config", "gldap writes no tls.Config it did not create", "-", sprintf("%d stores to tls.Config fields in package gldap examined", nCfg))
 	}
 
 	// ---- C15-copylocks
